@@ -332,3 +332,26 @@ fn d11_empty_pattern_leaf_answers_the_same_cached_and_uncached() {
     assert!(after.is_empty(), "the anchored empty pattern does not match \"x\"");
     assert_eq!(after_empty, vec!["v".to_string()]);
 }
+
+/// D15 (C09, R09.2): with ignore_marketing_query_params off the request side neither sorts nor
+/// re-encodes the query while the rule side always does, so a rule does not match its own URL.
+#[test]
+fn d15_rule_matches_its_own_url_whatever_the_marketing_flag() {
+    for ignore in [true, false] {
+        let cfg: RouterConfig = serde_json::from_str(&format!(r#"{{"ignore_marketing_query_params":{}}}"#, ignore)).unwrap();
+        let mut router = Router::<Rule>::from_config(cfg.clone());
+        router.insert(rule(r#"{"id":"r1","rank":1,"source":{"path":"/a","query":"b=1&a=2"}}"#));
+        router.insert(rule(r#"{"id":"r2","rank":1,"source":{"path":"/p","query":"q=x+y"}}"#));
+        for uri in ["/a?b=1&a=2", "/a?a=2&b=1"] {
+            let q = req(&cfg, uri, None, None);
+            assert_eq!(ids(&router, &q), vec!["r1".to_string()], "ignore_marketing_query_params={} uri={}", ignore, uri);
+        }
+        let q = req(&cfg, "/p?q=x+y", None, None);
+        assert_eq!(ids(&router, &q), vec!["r2".to_string()], "ignore_marketing_query_params={} uri=/p?q=x+y", ignore);
+        let q = req(&cfg, "/a?a=2&b=3", None, None);
+        assert!(ids(&router, &q).is_empty());
+        // marketing parameters are only ignored when the flag is on
+        let q = req(&cfg, "/a?a=2&b=1&utm_source=x", None, None);
+        assert_eq!(ids(&router, &q).len(), if ignore { 1 } else { 0 });
+    }
+}
